@@ -43,7 +43,7 @@ func c17Code(got any, a, b *c17Ref) int {
 	return 3
 }
 
-// H_C17_hist: K symbolic registrations / clears, then a symbolic probe.
+// H_C17_hist: K symbolic registrations / clears, then two symbolic probes.
 func H_C17_hist() {
 	K := vParam("K")
 	m := NewCharReferenceMap()
@@ -69,16 +69,19 @@ func H_C17_hist() {
 			regs = nil
 		}
 	}
-	ch := vInt32("ch")
-	vAssume(vAnd(ch >= -1, ch <= 0x10FFFF))
-	// the map is configured for characters up to U+FFFE
-	vAssume(ch <= 0xFFFE)
-	exp := 0
-	for _, r := range regs {
-		in := vAnd(ch >= r.s, ch <= r.e)
-		exp = vIteInt(in, r.ref, exp)
+	// two look-ups in a row: an answer never depends on what was looked up before
+	for probe := 0; probe < 2; probe++ {
+		ch := vInt32("ch")
+		vAssume(vAnd(ch >= -1, ch <= 0x10FFFF))
+		// the map is configured for characters up to U+FFFE
+		vAssume(ch <= 0xFFFE)
+		exp := 0
+		for _, r := range regs {
+			in := vAnd(ch >= r.s, ch <= r.e)
+			exp = vIteInt(in, r.ref, exp)
+		}
+		got := c17Code(m.Lookup(ch), a, b)
+		vAssert(got == exp, "lookup:latest-covering")
 	}
-	got := c17Code(m.Lookup(ch), a, b)
-	vAssert(got == exp, "lookup:latest-covering")
 	vDone()
 }
